@@ -547,15 +547,515 @@ pub fn crafted_proof_answer(
     Some((m, crafted(Kind::SendLastStateProof, "crafted proof for a made-up tip")))
 }
 
+fn rebuild_header(h: &packed::Header, rng: &mut Rng) -> packed::Header {
+    // alter one raw field
+    let raw = h.raw();
+    let b = raw.clone().as_builder();
+    let n: u64 = raw.number().unpack();
+    let raw2 = match rng.below(9) {
+        0 => b.number((n.wrapping_add(1)).pack()).build(),
+        1 => b.number((n.wrapping_sub(1)).pack()).build(),
+        2 => b.epoch(pick_epoch(rng).pack()).build(),
+        3 => {
+            let c: u32 = raw.compact_target().unpack();
+            b.compact_target((c ^ (1 << rng.below(24))).pack()).build()
+        }
+        4 => {
+            let t: u64 = raw.timestamp().unpack();
+            b.timestamp((t + 1).pack()).build()
+        }
+        5 => b.parent_hash(random_hashes(rng, 1)[0].clone()).build(),
+        6 => b.transactions_root(random_hashes(rng, 1)[0].clone()).build(),
+        7 => b.extra_hash(random_hashes(rng, 1)[0].clone()).build(),
+        _ => b.dao(random_hashes(rng, 1)[0].clone()).build(),
+    };
+    if rng.chance(1, 8) {
+        let nonce: u128 = h.nonce().unpack();
+        return h.clone().as_builder().nonce((nonce ^ 1).pack()).build();
+    }
+    h.clone().as_builder().raw(raw2).build()
+}
+
+fn alter_digest(d: &packed::HeaderDigest, rng: &mut Rng) -> packed::HeaderDigest {
+    let b = d.clone().as_builder();
+    match rng.below(5) {
+        0 => {
+            let td: U256 = d.total_difficulty().unpack();
+            b.total_difficulty((td.checked_add(&U256::one()).unwrap_or_else(U256::zero)).pack()).build()
+        }
+        1 => {
+            let td: U256 = d.total_difficulty().unpack();
+            b.total_difficulty(td.checked_sub(&U256::one()).unwrap_or_else(U256::one).pack()).build()
+        }
+        2 => {
+            let n: u64 = d.end_number().unpack();
+            b.end_number(n.wrapping_add(1).pack()).build()
+        }
+        3 => {
+            let n: u64 = d.start_number().unpack();
+            b.start_number(n.wrapping_add(1).pack()).build()
+        }
+        _ => b.children_hash(random_hashes(rng, 1)[0].clone()).build(),
+    }
+}
+
+fn mutate_verifiable(sim: &Sim, v: &packed::VerifiableHeader, rng: &mut Rng) -> packed::VerifiableHeader {
+    match rng.below(6) {
+        0 | 1 => v.clone().as_builder().header(rebuild_header(&v.header(), rng)).build(),
+        2 => v.clone().as_builder().uncles_hash(random_hashes(rng, 1)[0].clone()).build(),
+        3 => {
+            let mut e = v.extension().to_opt().map(|e| e.raw_data().to_vec()).unwrap_or_default();
+            if e.is_empty() {
+                e.push(1);
+            } else {
+                let i = rng.usize_below(e.len());
+                e[i] ^= 1;
+            }
+            v.clone()
+                .as_builder()
+                .extension(packed::BytesOpt::new_builder().set(Some(Bytes::from(e).pack())).build())
+                .build()
+        }
+        4 => v
+            .clone()
+            .as_builder()
+            .parent_chain_root(alter_digest(&v.parent_chain_root(), rng))
+            .build(),
+        _ => crafted_verifiable(sim, rng, None),
+    }
+}
+
+fn mutate_last_state_proof(
+    sim: &Sim,
+    p: usize,
+    m: &packed::SendLastStateProof,
+    layout: Option<&server::ProofLayout>,
+    op: u32,
+    rng: &mut Rng,
+) -> (packed::SendLastStateProof, String) {
+    let view = sim.peers[p].view;
+    let mut headers: Vec<packed::VerifiableHeader> = m.headers().into_iter().collect();
+    let mut proof: Vec<packed::HeaderDigest> = m.proof().into_iter().collect();
+    let mut last = m.last_header();
+    let (nr, ns) = layout.map(|l| (l.reorg.len(), l.sampled.len())).unwrap_or((0, 0));
+    let mut note = String::new();
+    match op % 14 {
+        0 if !headers.is_empty() => {
+            let i = rng.usize_below(headers.len());
+            headers.remove(i);
+            note = format!("drop header {}", i);
+        }
+        1 if !headers.is_empty() => {
+            let i = rng.usize_below(headers.len());
+            let h = headers[i].clone();
+            headers.insert(i, h);
+            note = format!("duplicate header {}", i);
+        }
+        2 if headers.len() >= 2 => {
+            let i = rng.usize_below(headers.len() - 1);
+            headers.swap(i, i + 1);
+            note = format!("swap headers {} and {}", i, i + 1);
+        }
+        3 if !headers.is_empty() => {
+            // the header of another block number of the same chain
+            let i = rng.usize_below(headers.len());
+            let n = rng.below(view.height + 1);
+            headers[i] = sim.world.block(view.branch, n).verifiable();
+            note = format!("header {} replaced by block #{}", i, n);
+        }
+        4 if !headers.is_empty() => {
+            let i = rng.usize_below(headers.len());
+            headers[i] = mutate_verifiable(sim, &headers[i], rng);
+            note = format!("header {} altered", i);
+        }
+        5 if !proof.is_empty() => {
+            let i = rng.usize_below(proof.len());
+            match rng.below(4) {
+                0 => {
+                    proof.remove(i);
+                    note = format!("drop proof item {}", i);
+                }
+                1 => {
+                    let d = proof[i].clone();
+                    proof.insert(i, d);
+                    note = format!("duplicate proof item {}", i);
+                }
+                2 => {
+                    proof[i] = alter_digest(&proof[i], rng);
+                    note = format!("alter proof item {}", i);
+                }
+                _ => {
+                    proof.push(random_digest(rng));
+                    note = "append proof item".into();
+                }
+            }
+        }
+        6 if nr > 0 => {
+            // remove (part of) the reorg section
+            let k = if rng.chance(1, 2) { nr } else { rng.range(1, nr as u64) as usize };
+            headers.drain(..k);
+            note = format!("remove {} reorg headers", k);
+        }
+        7 if headers.len() > nr + ns => {
+            // shorten the last-N section at its beginning (drops the boundary block) or end
+            if rng.chance(1, 2) {
+                headers.remove(nr + ns);
+                note = "drop the first last-N header (boundary block)".into();
+            } else {
+                headers.pop();
+                note = "drop the last last-N header".into();
+            }
+        }
+        8 if ns > 0 => {
+            // drop / replace a sampled header
+            let i = nr + rng.usize_below(ns);
+            if rng.chance(1, 2) {
+                headers.remove(i);
+                note = format!("drop sampled header {}", i);
+            } else {
+                let n: u64 = headers[i].header().raw().number().unpack();
+                let alt = if n > 1 { n - 1 } else { n + 1 };
+                headers[i] = sim.world.block(view.branch, alt.min(view.height)).verifiable();
+                note = format!("sampled header {} replaced by its neighbour", i);
+            }
+        }
+        9 => {
+            last = mutate_verifiable(sim, &last, rng);
+            note = "alter last header".into();
+        }
+        10 => {
+            // prepend an extra (real) header
+            let n = rng.below(view.height + 1);
+            headers.insert(0, sim.world.block(view.branch, n).verifiable());
+            note = format!("prepend block #{}", n);
+        }
+        11 if !headers.is_empty() => {
+            // total difficulty of one header's parent root
+            let i = rng.usize_below(headers.len());
+            let root = alter_digest(&headers[i].parent_chain_root(), rng);
+            headers[i] = headers[i].clone().as_builder().parent_chain_root(root).build();
+            note = format!("alter parent chain root of header {}", i);
+        }
+        12 => {
+            // a header from a sibling branch, if there is one
+            if sim.world.branches.len() > 1 && !headers.is_empty() {
+                let ob = (view.branch + 1) % sim.world.branches.len();
+                let i = rng.usize_below(headers.len());
+                let n: u64 = headers[i].header().raw().number().unpack();
+                if let Some(b) = sim.world.block_opt(ob, n) {
+                    headers[i] = b.verifiable();
+                    note = format!("header {} replaced by its sibling on branch {}", i, ob);
+                }
+            }
+        }
+        _ => {}
+    }
+    let out = packed::SendLastStateProof::new_builder()
+        .last_header(last)
+        .proof(proof.pack())
+        .headers(headers.pack())
+        .build();
+    (out, note)
+}
+
+fn mutate_block(sim: &Sim, m: &packed::SendBlock, op: u32, rng: &mut Rng) -> (packed::SendBlock, String) {
+    let block = m.block();
+    let mut txs: Vec<packed::Transaction> = block.transactions().into_iter().collect();
+    let mut note = String::new();
+    let b = block.clone().as_builder();
+    let nb = match op % 6 {
+        0 if txs.len() > 1 => {
+            let i = 1 + rng.usize_below(txs.len() - 1);
+            txs.remove(i);
+            note = format!("same header, transaction {} removed", i);
+            b.transactions(txs.pack()).build()
+        }
+        1 => {
+            // add a transaction paying one of the registered scripts
+            let lock = rng.pick(&sim.world.locks).clone();
+            let tx = ckb_types::core::TransactionBuilder::default()
+                .input(packed::CellInput::new(
+                    packed::OutPoint::new(random_hashes(rng, 1)[0].clone(), 0),
+                    0,
+                ))
+                .output(
+                    packed::CellOutput::new_builder()
+                        .capacity(ckb_types::core::Capacity::shannons(77_7777_7777).pack())
+                        .lock(lock)
+                        .build(),
+                )
+                .output_data(Bytes::new().pack())
+                .build();
+            txs.push(tx.data());
+            note = "same header, forged transaction appended".into();
+            b.transactions(txs.pack()).build()
+        }
+        2 if !txs.is_empty() => {
+            // alter an output's lock of a transaction
+            let i = rng.usize_below(txs.len());
+            let tx = txs[i].clone();
+            let outs: Vec<packed::CellOutput> = tx.raw().outputs().into_iter().collect();
+            if !outs.is_empty() {
+                let mut outs = outs;
+                let j = rng.usize_below(outs.len());
+                outs[j] = outs[j].clone().as_builder().lock(rng.pick(&sim.world.locks).clone()).build();
+                let raw = tx.raw().as_builder().outputs(outs.pack()).build();
+                txs[i] = tx.as_builder().raw(raw).build();
+            }
+            note = format!("same header, output of transaction {} altered", i);
+            b.transactions(txs.pack()).build()
+        }
+        3 => {
+            // the body of another block under this header
+            let other = &sim.world.blocks[rng.usize_below(sim.world.blocks.len())].view;
+            note = format!("same header, body of block #{}", other.number());
+            b.transactions(other.data().transactions()).build()
+        }
+        4 => {
+            note = "header altered".into();
+            b.header(rebuild_header(&block.header(), rng)).build()
+        }
+        _ => {
+            note = "extension removed".into();
+            packed::Block::new_builder()
+                .header(block.header())
+                .transactions(block.transactions())
+                .build()
+        }
+    };
+    (m.clone().as_builder().block(nb).build(), note)
+}
+
+fn mutate_filters(sim: &Sim, p: usize, m: &packed::BlockFilters, op: u32, rng: &mut Rng) -> (packed::BlockFilters, String) {
+    let view = sim.peers[p].view;
+    let start: u64 = m.start_number().unpack();
+    let mut hashes: Vec<Byte32> = m.block_hashes().into_iter().collect();
+    let mut filters: Vec<packed::Bytes> = m.filters().into_iter().collect();
+    let mut start2 = start;
+    let note;
+    match op % 8 {
+        0 if !filters.is_empty() => {
+            let i = rng.usize_below(filters.len());
+            let mut d = filters[i].raw_data().to_vec();
+            if d.is_empty() {
+                d.push(7);
+            } else {
+                let j = rng.usize_below(d.len());
+                d[j] ^= 1 << rng.below(8);
+            }
+            filters[i] = Bytes::from(d).pack();
+            note = format!("filter {} tampered", i);
+        }
+        1 => {
+            start2 = if rng.chance(1, 2) { start + 1 } else { start.saturating_sub(1) };
+            note = format!("start number shifted to {}", start2);
+        }
+        2 if !hashes.is_empty() => {
+            // authentic filters, block hash of another block of the proven chain
+            let i = rng.usize_below(hashes.len());
+            let n = rng.below(view.height + 1);
+            hashes[i] = sim.world.block(view.branch, n).hash();
+            note = format!("block hash {} replaced by the hash of block #{}", i, n);
+        }
+        3 if !hashes.is_empty() => {
+            let i = rng.usize_below(hashes.len());
+            hashes[i] = random_hashes(rng, 1)[0].clone();
+            note = format!("block hash {} replaced by a random hash", i);
+        }
+        4 if !filters.is_empty() => {
+            filters.pop();
+            note = "one filter missing".into();
+        }
+        5 => {
+            hashes.push(random_hashes(rng, 1)[0].clone());
+            filters.push(Bytes::from(vec![1u8, 2, 3]).pack());
+            note = "extra entry".into();
+        }
+        6 if filters.len() >= 2 => {
+            let i = rng.usize_below(filters.len() - 1);
+            filters.swap(i, i + 1);
+            note = format!("filters {} and {} swapped", i, i + 1);
+        }
+        _ => {
+            // an empty filter (matches nothing) for a block
+            if !filters.is_empty() {
+                let i = rng.usize_below(filters.len());
+                filters[i] = Bytes::new().pack();
+                note = format!("filter {} emptied", i);
+            } else {
+                note = String::new();
+            }
+        }
+    }
+    (
+        packed::BlockFilters::new_builder()
+            .start_number(start2.pack())
+            .block_hashes(hashes.pack())
+            .filters(filters.pack())
+            .build(),
+        note,
+    )
+}
+
+fn mutate_last_state(sim: &Sim, p: usize, m: &packed::SendLastState, op: u32, rng: &mut Rng) -> (packed::SendLastState, String) {
+    let view = sim.peers[p].view;
+    let tip = sim.world.block(view.branch, view.height);
+    match op % 3 {
+        0 => {
+            // a made-up child of the real tip whose chain root commits to an inflated difficulty
+            let real_root = sim.world.root_at(view.branch, view.height);
+            let td: U256 = real_root.total_difficulty().unpack();
+            let inflated = match rng.below(3) {
+                0 => td.checked_mul(&U256::from(1000u64)).unwrap_or_else(u256_max),
+                1 => &u256_max() - U256::from(1u64 << 40),
+                _ => td + U256::from(rng.range(1, 1_000_000)),
+            };
+            let root = real_root.as_builder().total_difficulty(inflated.pack()).build();
+            let ext: packed::Bytes = Bytes::from(root.calc_mmr_hash().as_slice().to_vec()).pack();
+            let th = tip.header();
+            let e = th.epoch();
+            let epoch = if th.number() == 0 {
+                EpochNumberWithFraction::new_unchecked(0, 1, 10).full_value()
+            } else if e.index() + 1 >= e.length() {
+                EpochNumberWithFraction::new_unchecked(e.number() + 1, 0, e.length()).full_value()
+            } else {
+                EpochNumberWithFraction::new_unchecked(e.number(), e.index() + 1, e.length()).full_value()
+            };
+            let header = raw_header(
+                th.number() + 1,
+                epoch,
+                th.compact_target(),
+                crate::sim::abs_now(sim.now),
+                th.hash(),
+                &ext,
+            );
+            let vh = packed::VerifiableHeader::new_builder()
+                .header(header)
+                .uncles_hash(Byte32::zero())
+                .extension(packed::BytesOpt::new_builder().set(Some(ext)).build())
+                .parent_chain_root(root)
+                .build();
+            (
+                packed::SendLastState::new_builder().last_header(vh).build(),
+                "forged child of the tip with an inflated parent chain root".into(),
+            )
+        }
+        1 => (
+            m.clone()
+                .as_builder()
+                .last_header(mutate_verifiable(sim, &m.last_header(), rng))
+                .build(),
+            "last header altered".into(),
+        ),
+        _ => (
+            packed::SendLastState::new_builder()
+                .last_header(crafted_verifiable(sim, rng, Some(&tip.header())))
+                .build(),
+            "crafted child with boundary values".into(),
+        ),
+    }
+}
+
+/// Applies the planned mutations of a deviating peer to one of its honest answers.
 pub fn mutate(
-    _sim: &mut Sim,
-    _p: usize,
+    sim: &mut Sim,
+    p: usize,
     proto: Proto,
     data: &Bytes,
     tag: &Tag,
-    _specs: &[MutSpec],
+    specs: &[MutSpec],
 ) -> Vec<(Proto, Bytes, Tag)> {
-    vec![(proto, data.clone(), tag.clone())]
+    let mut out = Vec::new();
+    for spec in specs {
+        let mut rng = Rng::new(mix(&[spec.seed, spec.op as u64, 0x3a7]));
+        let mut t = tag.clone();
+        t.honest = false;
+        t.canonical = Some(data.clone());
+        // generic operators
+        match spec.op {
+            1000 => {
+                // duplicate delivery
+                let mut t0 = tag.clone();
+                t0.canonical = Some(data.clone());
+                out.push((proto, data.clone(), t0.clone()));
+                t0.note = "duplicate delivery".into();
+                out.push((proto, data.clone(), t0));
+                sim.stat("fault.byz.duplicate");
+                continue;
+            }
+            1001 => {
+                t.note = "dropped".into();
+                sim.stat("fault.byz.drop");
+                let _ = t;
+                continue;
+            }
+            1002 => {
+                t.note = "byte damage".into();
+                out.push((proto, flip_bytes(&mut rng, data), t));
+                sim.stat("fault.byz.byte_damage");
+                continue;
+            }
+            _ => {}
+        }
+        let bytes: Option<(Bytes, String)> = match tag.kind {
+            Kind::SendLastStateProof => packed::LightClientMessageReader::from_compatible_slice(data)
+                .ok()
+                .and_then(|m| match m.to_enum() {
+                    packed::LightClientMessageUnionReader::SendLastStateProof(r) => {
+                        let (m2, note) =
+                            mutate_last_state_proof(sim, p, &r.to_entity(), tag.layout.as_ref(), spec.op, &mut rng);
+                        Some((lc_msg(m2).as_bytes(), note))
+                    }
+                    _ => None,
+                }),
+            Kind::SendLastState => packed::LightClientMessageReader::from_compatible_slice(data)
+                .ok()
+                .and_then(|m| match m.to_enum() {
+                    packed::LightClientMessageUnionReader::SendLastState(r) => {
+                        let (m2, note) = mutate_last_state(sim, p, &r.to_entity(), spec.op, &mut rng);
+                        if spec.op % 3 == 0 {
+                            sim.peers[p].fake_tip = Some(m2.last_header());
+                        }
+                        Some((lc_msg(m2).as_bytes(), note))
+                    }
+                    _ => None,
+                }),
+            Kind::SendBlock => packed::SyncMessageReader::from_compatible_slice(data)
+                .ok()
+                .and_then(|m| match m.to_enum() {
+                    packed::SyncMessageUnionReader::SendBlock(r) => {
+                        let (m2, note) = mutate_block(sim, &r.to_entity(), spec.op, &mut rng);
+                        Some((packed::SyncMessage::new_builder().set(m2).build().as_bytes(), note))
+                    }
+                    _ => None,
+                }),
+            Kind::BlockFilters => packed::BlockFilterMessageReader::from_slice(data)
+                .ok()
+                .and_then(|m| match m.to_enum() {
+                    packed::BlockFilterMessageUnionReader::BlockFilters(r) => {
+                        let (m2, note) = mutate_filters(sim, p, &r.to_entity(), spec.op, &mut rng);
+                        Some((server::filter_msg(m2).as_bytes(), note))
+                    }
+                    _ => None,
+                }),
+            _ => {
+                // proofs of blocks / transactions: structured byte damage inside the message
+                Some((flip_bytes(&mut rng, data), "byte damage".into()))
+            }
+        };
+        match bytes {
+            Some((b, note)) if !note.is_empty() && b != *data => {
+                t.note = note;
+                sim.stat(&format!("fault.byz.mutated.{}", tag.kind.name()));
+                out.push((proto, b, t));
+            }
+            _ => {
+                // the operator did not apply: deliver the honest answer
+                out.push((proto, data.clone(), tag.clone()));
+            }
+        }
+    }
+    out
 }
 
 pub fn lie_filters(_sim: &mut Sim, _p: usize, m: packed::BlockFilters) -> packed::BlockFilters {
